@@ -27,6 +27,7 @@ from puresnmp.plugins.mpm import AbstractEncodingResult, MessageProcessingModel
 from puresnmp.plugins.security import SecurityModel
 from puresnmp.plugins.security import create as create_sm
 from puresnmp.transport import MESSAGE_MAX_SIZE
+from puresnmp.util import validate_ber_structure
 
 IDENTIFIER = 3
 
@@ -70,6 +71,7 @@ class V3MPM(MessageProcessingModel[V3EncodingResult, TV3SecModel]):
         security_model_id = 3
         if self.security_model is None:
             self.security_model = create_sm(security_model_id)
+        validate_ber_structure(whole_msg)
         message = Message.decode(whole_msg)
         msg = self.security_model.process_incoming_message(message, credentials)
         return msg.scoped_pdu.data
